@@ -886,3 +886,8 @@ func descInt(v ssa.Value) string {
 	}
 	return path(v)
 }
+
+// InModule2: the global belongs to the module under analysis.
+func (c *Ctx) InModule2(g *ssa.Global) bool {
+	return g.Pkg != nil && g.Pkg.Pkg != nil && (g.Pkg.Pkg.Path() == pkgReflect || g.Pkg.Pkg.Path() == pkgDefs || g.Pkg.Pkg.Path() == pkgRoot || g.Pkg.Pkg.Path() == pkgOpts)
+}
